@@ -277,7 +277,7 @@ func equalLines(a, b []string) bool {
 		return false
 	}
 	for i := range a {
-		if a[i] != b[i] {
+		if a[i] != b[i] && b[i] != "any" { // "any": the model makes no statement about this request
 			return false
 		}
 	}
